@@ -17,6 +17,7 @@ import time
 import z3
 
 from .speclib import SumI, SumR
+from .ops import POW10, SQRT, LOGB, EXP
 
 _feas_cache = {}
 _feas_ms = int(os.environ.get('PYVC_FEAS_MS', '400'))
@@ -33,6 +34,8 @@ def feasibility_oracle(conj):
     s = z3.Solver()
     s.set('timeout', _feas_ms)
     for c in conj:
+        s.add(c)
+    for c in uf_axioms(conj):
         s.add(c)
     r = s.check()
     stats['feas_calls'] += 1
@@ -114,6 +117,53 @@ def unfold_all(formulas, fuel=1):
     return axioms
 
 
+def uf_axioms(formulas):
+    """instances of the axioms of the uninterpreted real functions at the terms that occur:
+       pow10(x) > 0, exp(x) > 0, sqrt(x) >= 0 (DESIGN 1.4)"""
+    out = []
+    seen = set()
+
+    def go(x):
+        if x.get_id() in seen:
+            return
+        seen.add(x.get_id())
+        if z3.is_quantifier(x):
+            go(x.body())
+            return
+        if z3.is_app(x):
+            d = x.decl()
+            if (d.eq(POW10) or d.eq(EXP)) and _closed(x):
+                out.append(x > 0)
+            elif d.eq(SQRT) and _closed(x):
+                out.append(x >= 0)
+            for c in x.children():
+                go(c)
+    pows = []
+
+    def go2(x, seen2=set()):
+        if x.get_id() in seen2:
+            return
+        seen2.add(x.get_id())
+        if z3.is_quantifier(x):
+            return
+        if z3.is_app(x):
+            if x.decl().eq(POW10) and _closed(x):
+                pows.append(x)
+            for c in x.children():
+                go2(c, seen2)
+    for f in formulas:
+        go(f)
+        go2(f)
+    # pow10 is strictly increasing (pairwise instances, capped)
+    uniq = {p.get_id(): p for p in pows}
+    ps = list(uniq.values())[:12]
+    for i in range(len(ps)):
+        for k in range(i + 1, len(ps)):
+            a, b = ps[i].arg(0), ps[k].arg(0)
+            out.append(z3.And(z3.Implies(a < b, ps[i] < ps[k]), z3.Implies(b < a, ps[k] < ps[i]), z3.Implies(a == b, ps[i] == ps[k])))
+    return out
+
+
 # ------------------------------------------------------------------ normalisation
 def collect_lambdas(fs):
     out = {}
@@ -182,7 +232,7 @@ def query_formulas(ob, fuel=1):
     neg = z3.Not(ob.goal)
     base = [z3.simplify(f) for f in list(ob.pc) + [neg]]
     ax = unfold_all(base, fuel)
-    return base + ax
+    return base + ax + uf_axioms(base + ax)
 
 
 def _check(fs, timeout_ms):
@@ -217,6 +267,18 @@ def discharge(ob, timeout_ms=20000, use_cli=True):
     zv = 'z3-' + z3.get_version_string()
     cand = None
     fs1 = query_formulas(ob, 1)
+    if ob.kind == 'canary':
+        # vacuity guard: only a *proof* of False matters; two short attempts
+        r, s = _check(fs1, 1500)
+        if r == z3.unsat:
+            return dict(verdict='proved', backend=zv, time=time.time() - t0)
+        try:
+            r2, _ = _check(normalise(fs1), 1500)
+        except z3.Z3Exception:
+            r2 = z3.unknown
+        if r2 == z3.unsat:
+            return dict(verdict='proved', backend=zv + '+normalised', time=time.time() - t0)
+        return dict(verdict='candidate' if r == z3.sat else 'unknown', backend=zv, time=time.time() - t0)
     r, s = _check(fs1, min(3000, timeout_ms))
     if r == z3.unsat:
         return dict(verdict='proved', backend=zv, time=time.time() - t0)
